@@ -71,6 +71,19 @@ func run(c *core.Ctx) {
 	c.Exhaustive = true
 	mo := proto.MarshalOptions{AllowPartial: true}
 	var planOut []map[string]any
+	// the history family first: it is cheap, and a budget that runs out under load
+	// then cuts the pairwise plans, which are ordered simplest-first anyway
+	var histOut []map[string]any
+	for _, f := range []univ.Flavor{univ.Gen("goproto.proto.test.TestAllTypes"), univ.Gen("opaque.goproto.proto.testeditions.TestAllTypes"), univ.Dyn("goproto.proto.test.TestAllTypes"), univ.Gen("opaque.lazy_tree.Node"), univ.Gen("goproto.proto.test.TestAllExtensions")} {
+		if c.Expired() {
+			c.Exhaustive = false
+			break
+		}
+		if r := histories(c, f, core.Pick(c, 4, 5)); r != nil {
+			histOut = append(histOut, r)
+		}
+	}
+	c.Bounds["merge_histories"] = histOut
 	for _, p := range plans(c) {
 		if c.Expired() {
 			break
@@ -187,16 +200,5 @@ func run(c *core.Ctx) {
 		}
 	}
 	c.Bounds["plans"] = planOut
-	var histOut []map[string]any
-	for _, f := range []univ.Flavor{univ.Gen("goproto.proto.test.TestAllTypes"), univ.Gen("opaque.goproto.proto.testeditions.TestAllTypes"), univ.Dyn("goproto.proto.test.TestAllTypes"), univ.Gen("opaque.lazy_tree.Node"), univ.Gen("goproto.proto.test.TestAllExtensions")} {
-		if c.Expired() {
-			c.Exhaustive = false
-			break
-		}
-		if r := histories(c, f, core.Pick(c, 4, 5)); r != nil {
-			histOut = append(histOut, r)
-		}
-	}
-	c.Bounds["merge_histories"] = histOut
 	c.Assume("AllowPartial everywhere; expected values are built from slot lists, never with Clone")
 }
